@@ -83,6 +83,9 @@ func genArrayLen(r *rand.Rand) int {
 }
 
 func genValue(r *rand.Rand, f *Field, ver int16, o genOpts) any {
+	if f.Kind == KRecords && o.records != nil {
+		return o.records(r) // never null: kafka-go cannot re-encode an empty record set
+	}
 	if f.Nullable.Has(ver) && r.Intn(4) == 0 {
 		return nil
 	}
